@@ -139,6 +139,29 @@ def run(ctx):
                 if why:
                     det.update({"issue": why}); ctx.violation("oracle", det, site=fn.site); break
             ctx.case((name, repr(sorted(p.items(), key=lambda kv: kv[0]))), True); ctx.count("callable-args-" + name)
+    for _ in range(ctx.n(80, 1200)):
+        n = ctx.rng.randint(3, 8)
+        strat = ctx.rng.random() < 0.6
+        grp = [ctx.rng.choice(["T", "C"]) for _ in range(n)]; grp[0], grp[1] = "T", "C"
+        cov = [[ctx.rng.choice([1, 2, 2]), ctx.rng.randint(0, 4)] for _ in range(n)]
+        resp = [[float(ctx.rng.randint(0, 9)), float(ctx.rng.randint(0, 9))] for _ in range(n)]
+        e = npc.Experiment(grp, resp, cov, npc.Experiment.Randomizer(randomize=(npc.randomize_in_strata if strat else npc.randomize_group), seed=ctx.rng.randint(0, 10**6)))
+        tests = npc.Experiment.make_test_array(npc.Experiment.TestFunc.one_way_anova, [0, 1])
+        before = (e.group.tobytes() if e.group.dtype != object else repr(e.group.tolist()), repr(e.response.tolist()), repr(e.covariate.tolist()))
+        which = ctx.rng.choice(["randomize", "sim_npc", "westfall_young-minP", "westfall_young-maxT"])
+        sd = ctx.rng.choice([None, ctx.rng.randint(0, 10**6)])
+        if which == "randomize":
+            r = guarded(e.randomize, False, sd)
+        elif which == "sim_npc":
+            r = guarded(npc.sim_npc, e, tests, "tippett", False, ctx.rng.randint(1, 4), sd)
+        else:
+            r = guarded(npc.westfall_young, e, tests, which.split("-")[1], "greater", False, ctx.rng.randint(1, 4), sd)
+        after = (e.group.tobytes() if e.group.dtype != object else repr(e.group.tolist()), repr(e.response.tolist()), repr(e.covariate.tolist()))
+        ctx.case(("exp-copy", which, strat, tuple(grp), sd), True); ctx.count("experiment-in_place=False-" + which + ("-stratified" if strat else ""))
+        if r[0] != "ok" or before != after:
+            ctx.violation("oracle", {"call": which, "in_place": False, "stratified_randomizer": strat, "group": grp, "strata": [c_[0] for c_ in cov], "seed": sd,
+                                     "issue": "an Experiment passed with in_place=False was modified (or the call failed)", "returned": str(r)[:200],
+                                     "group_after": e.group.tolist()}, site="Experiment")
     o2, m2 = rt.run_recorded(ctx, [n_ for n_ in rt.FUNCS if n_ not in ("corr", "spearman_corr", "sim_corr")], ctx.n(25, 400))
     outs = run_model(ops + o2)
     agree = True
